@@ -726,6 +726,19 @@ impl<'a> GeneratorState<'a> {
                     }
                     ret
                 }
+                // The high byte of a truth value is 0 (its operands were evaluated for the low byte)
+                Operation::Eq
+                | Operation::Neq
+                | Operation::Gt
+                | Operation::Gte
+                | Operation::Lt
+                | Operation::Lte
+                | Operation::Land
+                | Operation::Lor
+                    if high_byte =>
+                {
+                    Ok(ExprType::Immediate(0))
+                }
                 Operation::Eq
                 | Operation::Neq
                 | Operation::Gt
@@ -767,7 +780,8 @@ impl<'a> GeneratorState<'a> {
                     let right = self.generate_expr(rhs, pos, false, second_time)?;
                     self.generate_shift(&left, op, &right, pos, high_byte)
                 }
-                Operation::TernaryCond1 => self.generate_ternary(lhs, rhs, pos),
+                // Each alternative gives the byte that is asked for
+                Operation::TernaryCond1 => self.generate_ternary(lhs, rhs, pos, high_byte),
                 Operation::TernaryCond2 => Err(self
                     .compiler_state
                     .syntax_error("Unexpected ':'. Probably a ';' typo", pos)),
